@@ -603,7 +603,7 @@ func genC43(t *rapid.T, excluded map[string]bool) c43Case {
 
 // TestC43: shared values are safe under concurrent use (built with -race).
 func TestC43(t *testing.T) {
-	rec := ev.New("C43", "rapid-generated cases: a shared world (object with list, named members, a nested object, optional default value; record with attached rule and optional observer; closures sharing a counter, a variable and an object; class with constant members and a shared instance) made concurrent as builtin Thread does, then 2-8 goroutines with own core.Thread run generated scripts (2-26 operations from 70 Suneido operation templates, focus on one value group per case, generated yields). Non-trivial: >= 2 goroutines writing the shared object and >= 1 iterating it. Distinct = by scripts.")
+	rec := ev.New("C43", "rapid-generated cases: a shared world (object with list, named members, a nested object, optional default value; record with attached rule and optional observer; closures sharing a counter, a variable and an object; class with constant members and a shared instance) made concurrent as builtin Thread does, then 2-8 goroutines with own core.Thread run generated scripts (2-26 operations from 89 Suneido operation templates, focus on one value group per case, generated yields). Non-trivial: >= 2 goroutines writing the shared object and >= 1 iterating it. Distinct = by scripts. Sub-property enter: one of 31 ways a value enters an already shared container (Add with/without at: inside/at the end/beyond the list, several values, ob[i]=, named put, CompareAndSet, Delete/PopFirst/Erase + re-Add, Set_default, Bind, record Add/put/rule result, instance member, closure shared object and variable) x a fresh non-concurrent object/record/instance/closure with a mutable child; (a) Concurrent? of the value reached through the container and of its child must be true, (b) 2-6 goroutines x 5-400 mutations through the container must all be present at the end; non-trivial: >= 40 mutations per thread.")
 	rec.Assumptions = []string{
 		"built and run with the Go race detector (driver: race=true, GORACE=halt_on_error=1): a DATA RACE report ends the process and the journalled case is the replay artefact",
 		"interleavings are whatever the Go scheduler produces with generated yields; a race must actually occur in a run to be reported",
